@@ -1,2 +1,138 @@
-From AB Require Import Store.
-Theorem C07_placeholder : True. Proof. exact I. Qed.
+(* C07 - the token store behaves exactly like a plain ordered sequence.
+   Model: Store.v (statement-by-statement transcription of autobean_refactor/token_store.py, tied to the
+   code by the full-state correspondence of harness/store_check.py).  `abs s` is the plain list
+   (concatenation of the blocks' token lists), `Inv s` the representation invariant (StoreInv.v),
+   `list_splice l ts p q = firstn p l ++ ts ++ skipn q l` the list reference.  All theorems hold for every
+   load factor LF >= 1, in particular for the LF >= 2 the property names; they cover block splits, merges
+   (both outcomes) and rebalancing because they are proved about _update_block itself.
+   `r = Ok tt` in the conclusions says that no IndexError / ValueError / OutOfFuel is reachable. *)
+From AB Require Import StoreTop StoreRun.
+
+(* the mutators refine the list splice, keep the invariant, never raise, leave texts alone *)
+Theorem C07_splice_refines : forall LF s tokens ref del_end p q s' r,
+  1 <= LF -> Inv s -> ref_pos (abs s) ref p -> end_pos (abs s) del_end p q ->
+  valid_tokens (abs s) tokens p q ->
+  splice LF s tokens ref del_end = (s', r) ->
+  r = Ok tt /\ Inv s' /\ abs s' = list_splice (abs s) tokens p q /\ (forall t, txt s' t = txt s t).
+Proof. exact splice_spec. Qed.
+
+Example C07_splice_refines_nonvacuous :
+  Inv ex_s /\ length (s_blocks ex_s) = 4%nat /\
+  ref_pos (abs ex_s) (Some 2%positive) 1 /\ end_pos (abs ex_s) (Some 6%positive) 1 6 /\
+  valid_tokens (abs ex_s) [8; 3]%positive 1 6.
+Proof. exact (conj (proj1 ex_inv) (conj ex_blocks ex_splice_args)). Qed.
+
+(* removed tokens are detached (store_handle = None) *)
+Theorem C07_splice_detaches : forall LF s tokens ref del_end p q s' r,
+  1 <= LF -> Inv s -> ref_pos (abs s) ref p -> end_pos (abs s) del_end p q ->
+  valid_tokens (abs s) tokens p q ->
+  splice LF s tokens ref del_end = (s', r) ->
+  forall t, In t (firstn (q - p) (skipn p (abs s))) -> ~ In t tokens -> hnd s' t = None.
+Proof. exact splice_detaches. Qed.
+
+(* in any state satisfying the invariant: tokens outside the store have no handle, tokens inside know
+   their block and offset, and the block knows its position *)
+Theorem C07_detached : forall s t, Inv s -> ~ In t (abs s) -> hnd s t = None.
+Proof. exact detached. Qed.
+Theorem C07_attached : forall s k t, Inv s -> nth_error (abs s) k = Some t ->
+  exists i b j, nth_error (s_blocks s) i = Some b /\ nth_error (toks s b) j = Some t /\
+    k = (length (flat_map (toks s) (firstn i (s_blocks s))) + j)%nat /\
+    hnd s t = Some (b, Z.of_nat j) /\ bidx s b = Z.of_nat i.
+Proof. exact attached. Qed.
+
+Theorem C07_insert_after_refines : forall LF s tokens ref p s' r,
+  1 <= LF -> Inv s ->
+  match ref with None => p = 0%nat | Some r0 => (1 <= p)%nat /\ nth_error (abs s) (p - 1) = Some r0 end ->
+  NoDup tokens -> (forall t, In t tokens -> ~ In t (abs s)) ->
+  insert_after LF s ref tokens = (s', r) ->
+  r = Ok tt /\ Inv s' /\ abs s' = list_splice (abs s) tokens p p /\ (forall t, txt s' t = txt s t).
+Proof. exact insert_after_spec. Qed.
+
+Theorem C07_insert_before_refines : forall LF s tokens ref p s' r,
+  1 <= LF -> Inv s -> ref_pos (abs s) ref p -> NoDup tokens -> (forall t, In t tokens -> ~ In t (abs s)) ->
+  insert_before LF s ref tokens = (s', r) ->
+  r = Ok tt /\ Inv s' /\ abs s' = list_splice (abs s) tokens p p /\ (forall t, txt s' t = txt s t).
+Proof. exact insert_before_spec. Qed.
+
+Theorem C07_replace_refines : forall LF s t r0 k s' r,
+  1 <= LF -> Inv s -> nth_error (abs s) k = Some t -> (r0 = t \/ ~ In r0 (abs s)) ->
+  replace LF s t r0 = (s', r) ->
+  r = Ok tt /\ Inv s' /\ abs s' = list_splice (abs s) [r0] k (S k) /\ (forall u, txt s' u = txt s u).
+Proof. exact replace_spec. Qed.
+
+Theorem C07_remove_refines : forall LF s a b ka kb s' r,
+  1 <= LF -> Inv s -> nth_error (abs s) ka = Some a ->
+  match b with None => kb = ka | Some b0 => (ka <= kb)%nat /\ nth_error (abs s) kb = Some b0 end ->
+  remove LF s a b = (s', r) ->
+  r = Ok tt /\ Inv s' /\ abs s' = list_splice (abs s) [] ka (S kb) /\ (forall u, txt s' u = txt s u).
+Proof. exact remove_spec. Qed.
+
+Example C07_mutators_nonvacuous :
+  Inv ex_s /\ nth_error (abs ex_s) 2 = Some 3%positive /\ nth_error (abs ex_s) 5 = Some 6%positive /\
+  ~ In 9%positive (abs ex_s).
+Proof.
+  split; [exact (proj1 ex_inv)|]. rewrite (proj2 ex_inv). cbn. intuition discriminate.
+Qed.
+
+(* the block-level statement underneath (start/end given as (block, offset) pairs), covering the fast
+   path, _update_block (rebuild / merge / split) and the multi-block path *)
+Theorem C07_splice_block_level : forall LF s tokens si sj ei ej bs be s' r,
+  1 <= LF -> Inv s ->
+  nth_error (s_blocks s) si = Some bs -> nth_error (s_blocks s) ei = Some be ->
+  (sj <= length (toks s bs))%nat -> (ej <= length (toks s be))%nat ->
+  (si < ei \/ (si = ei /\ sj <= ej))%nat ->
+  NoDup tokens ->
+  let F n := length (flat_map (toks s) (firstn n (s_blocks s))) in
+  let p := (F si + sj)%nat in let q := (F ei + ej)%nat in
+  (forall t, In t tokens -> ~ In t (abs s) \/ In t (firstn (q - p) (skipn p (abs s)))) ->
+  splice_ LF s tokens (Z.of_nat si, Z.of_nat sj) (Z.of_nat ei, Z.of_nat ej) = (s', r) ->
+  r = Ok tt /\ Inv s' /\ abs s' = firstn p (abs s) ++ tokens ++ skipn q (abs s) /\
+  (forall t, txt s' t = txt s t).
+Proof. exact splice__spec. Qed.
+
+(* _update_block repairs a store in which only block b is stale, without changing the sequence *)
+Theorem C07_update_block : forall LF s b s' r,
+  1 <= LF -> InvG (eq b) s -> In b (s_blocks s) -> update_block LF s b = (s', r) ->
+  r = Ok tt /\ Inv0 s' /\ abs s' = abs s /\ frame_ok s s'.
+Proof. exact update_block_spec. Qed.
+
+(* observers = list functions on the abstraction *)
+Theorem C07_observers : forall s, Inv s ->
+  all_tokens s = abs s /\ len s = zlen (abs s) /\
+  get_first s = Ok (nth_error (abs s) 0) /\ get_last s = Ok (nth_error (abs s) (length (abs s) - 1)) /\
+  (forall k t, nth_error (abs s) k = Some t ->
+     get_index s t = Ok (Z.of_nat k) /\
+     get_prev s t = Ok (match k with O => None | S k' => nth_error (abs s) k' end) /\
+     get_next s t = Ok (nth_error (abs s) (S k))) /\
+  (forall k1 k2 a b, nth_error (abs s) k1 = Some a -> nth_error (abs s) k2 = Some b -> (k1 <= k2)%nat ->
+     iter_range s a b = Ok (firstn (k2 + 1 - k1) (skipn k1 (abs s)))) /\
+  (forall t, ~ In t (abs s) ->
+     get_index s t = Err ValueError /\ get_prev s t = Err ValueError /\ get_next s t = Err ValueError).
+Proof. exact observers_spec. Qed.
+
+Example C07_observers_nonvacuous : Inv ex_s /\ abs ex_s = ex_ids /\ length (s_blocks ex_s) = 4%nat.
+Proof. exact (conj (proj1 ex_inv) (conj (proj2 ex_inv) ex_blocks)). Qed.
+
+(* constructors establish the invariant *)
+Theorem C07_empty_store : forall tk, clean tk -> Inv (empty_store tk) /\ abs (empty_store tk) = [].
+Proof. exact empty_inv. Qed.
+Theorem C07_from_tokens : forall LF tk ts s' r, 1 <= LF -> clean tk -> NoDup ts ->
+  from_tokens LF tk ts = (s', r) ->
+  r = Ok tt /\ Inv s' /\ abs s' = ts /\ (forall t, txt s' t = t_text (tget tk t)).
+Proof. exact from_tokens_spec. Qed.
+
+Example C07_constructors_nonvacuous : clean ex_tk /\ NoDup ex_ids.
+Proof. exact (conj ex_clean ex_ids_nodup). Qed.
+
+(* histories: every step returns normally, the invariant holds after every step, the contents and the
+   texts follow the list reference (good_run), for every load factor *)
+Theorem C07_history : forall LF, 1 <= LF -> forall ops s, Inv s -> ops_valid (abs s) ops -> good_run LF s ops.
+Proof. exact history_refines. Qed.
+
+Theorem C07_history_final : forall LF, 1 <= LF -> forall ops s, Inv s -> ops_valid (abs s) ops ->
+  Inv (run_ops LF s ops) /\ abs (run_ops LF s ops) = ref_run (abs s) ops /\
+  (forall t, txt (run_ops LF s ops) t = ref_texts (txt s) ops t).
+Proof. exact run_ops_spec. Qed.
+
+Example C07_history_nonvacuous : Inv ex_s /\ ops_valid (abs ex_s) ex_ops /\ length ex_ops = 7%nat.
+Proof. exact (conj (proj1 ex_inv) (conj ex_ops_valid eq_refl)). Qed.
